@@ -84,16 +84,35 @@ def addr_of(host, port, inst):
     return "%s:%d" % (host, port) if inst is None else "%s:%d:%s" % (host, port, inst)
 
 
+LOOP = ("127.0.0.1", "127.0.0.11", "127.0.0.2", "127.1.2.3", "127.0.0.12")
+INSTS = ["a", "b", "c", "aa", "ab", "b1", "1", "2", "10", "z", "A"]
+
+
+def mknode(nodes, host, inst, port, listen):
+    nd = dict(id=len(nodes) + 1, host=host, inst=inst, port=port, listen=listen,
+              addr=addr_of(host, port, inst) if not listen else "",
+              show=addr_of(host, port, inst) if not listen else "%s:<L%d>%s" % (host, listen, ":" + inst if inst else ""),
+              pos=carbon_ring.node_positions(host, inst))
+    nodes.append(nd)
+    return nd
+
+
 def gen_universe(rng, engineered):
     """destinations with distinct (host, instance): bare hosts, host:port, host:port:instance;
-    several instances on one host; hosts that are prefixes of each other.  Everything refuses
-    connections (loopback ports < 10, or no port at all => dial error)."""
+    several instances on one host; hosts that are prefixes of each other.  Nodes with listen = 0
+    refuse connections (loopback ports < 10, or no port at all => dial error); nodes with
+    listen = g > 0 are served by a loopback listener of the driver (its own port; a second port
+    for port-only updates), among them 2-3 that mostly share the host of another node: the
+    addresses destinations are updated to."""
     n = rng.randint(2, 9)
     hosts = ["127.0.0.1", "127.0.0.11", "127.0.0.2", "127.1.2.3", "carbon", "carbon-a", "carbon-a1", "10.0.0.1",
              "graphite.example.com", "127.0.0.12"]
     rng.shuffle(hosts)
     hosts = hosts[:rng.randint(1, min(4, n))]
+    if not any(h in LOOP for h in hosts):
+        hosts[rng.randrange(len(hosts))] = rng.choice(LOOP)
     nodes, seen = [], set()
+    groups = 0
     tries = 0
     while len(nodes) < n and tries < 1000:
         tries += 1
@@ -103,7 +122,7 @@ def gen_universe(rng, engineered):
         port = None if form == "bare" else rng.choice([1, 2, 3, 7, 9])
         inst = None
         if form == "inst":
-            inst = rng.choice(["a", "b", "c", "aa", "ab", "b1", "1", "2", "10", "z", "A"])
+            inst = rng.choice(INSTS)
             if engineered and nodes and rng.random() < 0.7:
                 # aim an instance name at a collision with a replica of an earlier node
                 target = set(rng.choice(nodes)["pos"])
@@ -115,10 +134,21 @@ def gen_universe(rng, engineered):
         if (host, inst) in seen:
             continue
         seen.add((host, inst))
-        nodes.append(dict(id=len(nodes) + 1, host=host, inst=inst, port=port, addr=addr_of(host, port, inst),
-                          pos=carbon_ring.node_positions(host, inst)))
+        listen = 0
+        if host in LOOP and form != "bare" and rng.random() < 0.3:
+            groups += 1
+            listen = groups
+        mknode(nodes, host, inst, port, listen)
     if len(nodes) < 2:
         return gen_universe(rng, engineered)
+    for t in range(rng.randint(2, 3)):
+        same = [nd["host"] for nd in nodes if nd["host"] in LOOP]
+        host = rng.choice(same) if same and (t == 0 or rng.random() < 0.6) else rng.choice(LOOP)
+        free = [i for i in INSTS + [None] if (host, i) not in seen]
+        inst = rng.choice(free)
+        seen.add((host, inst))
+        groups += 1
+        mknode(nodes, host, inst, None, groups)
     return nodes
 
 
@@ -159,34 +189,104 @@ def gen_keys(rng, nodes, nkeys, tag):
     return keys
 
 
-def gen_histories(ctx, rng, nsets, orders, nkeys, nops, engineered_share=0.5):
-    hists = []
+UPD_CLASSES = ("same-host-other-instance", "other-host", "port-only", "refused")
+PROBE = "same-hostport-other-instance"
+
+
+def upd_candidates(nodes, cur):
+    """(slot, node, alt, class) for every address update possible now"""
+    byid = {nd["id"]: nd for nd in nodes}
+    members = set(m["node"] for m in cur)
+    out = []
+    for slot, m in enumerate(cur):
+        old = byid[m["node"]]
+        for nd in nodes:
+            if nd["id"] == old["id"]:
+                if nd["listen"]:
+                    out.append((slot, nd["id"], 1 - m["alt"], "port-only"))
+            elif nd["id"] not in members:
+                if not nd["listen"]:
+                    out.append((slot, nd["id"], 0, "refused"))
+                else:
+                    out.append((slot, nd["id"], 0, "same-host-other-instance" if nd["host"] == old["host"] else "other-host"))
+    return out
+
+
+def mkhist(ctx, hists, nodes, members, ops, keys, tag="", probe=""):
+    h = len(hists)
+    hists.append(dict(h=h, route="c15_%d_%d_%d%s" % (ctx.seed, os.getpid() % 100000, h, tag),
+                      nodes=[dict(id=nd["id"], addr=nd["addr"], host=nd["host"], inst=nd["inst"] or "", listen=nd["listen"])
+                             for nd in nodes],
+                      init=members, ops=ops, keys=keys, _nodes=nodes, _probe=probe))
+    return hists[-1]
+
+
+def gen_histories(ctx, rng, nsets, orders, nkeys, nops, engineered_share=0.5, hists=None):
+    hists = [] if hists is None else hists
     for s in range(nsets):
         nodes = gen_universe(rng, engineered=(rng.random() < engineered_share))
         keys = gen_keys(rng, nodes, nkeys, "c15.s%d" % s)
         ids = [nd["id"] for nd in nodes]
         m0 = rng.sample(ids, rng.randint(1, len(ids)))
+        # make an update to another instance on the same host possible right away: a member x and a
+        # listening non-member t on the same host
+        pairs = [(x, t) for x in nodes for t in nodes if t["listen"] and x["id"] != t["id"] and x["host"] == t["host"]]
+        if pairs:
+            x, t = rng.choice(pairs)
+            m0 = [i for i in m0 if i != t["id"]]
+            if x["id"] not in m0:
+                m0.append(x["id"])
         for o in range(orders):
             members = list(m0)
             rng.shuffle(members)
-            cur = list(members)
+            cur = [dict(node=i, alt=0) for i in members]
             ops = []
             removed = []
-            for _ in range(nops):
-                non = [i for i in ids if i not in cur]
+            for step in range(nops):
+                non = [i for i in ids if i not in [m["node"] for m in cur]]
+                cands = upd_candidates(nodes, cur)
+                first = [c for c in cands if c[3] == UPD_CLASSES[0]]
+                if step == 0 and first and (o == 0 or rng.random() < 0.3):
+                    cands = first
+                elif rng.random() >= 0.45:
+                    cands = []
+                if cands:
+                    cls = rng.choice(sorted(set(c[3] for c in cands), key=UPD_CLASSES.index))
+                    slot, nid, alt, cls = rng.choice([c for c in cands if c[3] == cls])
+                    ops.append(dict(op="upd", node=nid, slot=slot, alt=alt, cls=cls))
+                    if cls != "refused":
+                        cur[slot] = dict(node=nid, alt=alt)
                 # prefer re-adding a removed destination now and then
-                if non and (len(cur) < 2 or rng.random() < 0.55):
+                elif non and (len(cur) < 2 or rng.random() < 0.55):
                     nid = rng.choice([i for i in non if i in removed] or non) if rng.random() < 0.5 else rng.choice(non)
-                    ops.append(dict(op="add", node=nid, slot=0))
-                    cur.append(nid)
+                    ops.append(dict(op="add", node=nid, slot=0, alt=0))
+                    cur.append(dict(node=nid, alt=0))
                 elif len(cur) >= 2:
                     sl = rng.randrange(len(cur))
-                    ops.append(dict(op="del", node=0, slot=sl))
-                    removed.append(cur.pop(sl))
-            h = len(hists)
-            hists.append(dict(h=h, route="c15_%d_%d_%d" % (ctx.seed, os.getpid() % 100000, h),
-                              nodes=[dict(id=nd["id"], addr=nd["addr"], host=nd["host"], inst=nd["inst"] or "") for nd in nodes],
-                              init=members, ops=ops, keys=keys, _nodes=nodes))
+                    ops.append(dict(op="del", node=0, slot=sl, alt=0))
+                    removed.append(cur.pop(sl)["node"])
+            mkhist(ctx, hists, nodes, members, ops, keys)
+    return hists
+
+
+def gen_probes(ctx, rng, hists, n, nkeys):
+    """the address of a destination is changed to the same host:port with another instance (the
+    carbon-cache behind the port was re-configured): two nodes share one listener"""
+    forms = [("a", "c"), (None, "b"), ("b", None), ("1", "10")]
+    rng.shuffle(forms)
+    for k in range(n):
+        i0, i1 = forms[k % len(forms)]
+        host = rng.choice(LOOP)
+        nodes = []
+        mknode(nodes, host, i0, None, 1)
+        mknode(nodes, host, rng.choice(["x", "y"]), 2, 0)
+        mknode(nodes, host, i1, None, 1)
+        mknode(nodes, rng.choice(["carbon", "127.1.1.1"]), None, None, 0)
+        keys = gen_keys(rng, nodes, nkeys, "c15.p%d" % k)
+        init = [1, 2, 4] if k % 2 else [2, 1]
+        ops = [dict(op="upd", node=3, slot=init.index(1), alt=0, cls=PROBE),
+               dict(op="upd", node=1, slot=init.index(1), alt=0, cls=PROBE)]
+        mkhist(ctx, hists, nodes, init, ops, keys, tag="_probe", probe=PROBE)
     return hists
 
 
